@@ -259,8 +259,8 @@ func (n namedField) SetValue(opts *options, elem value, v value) Error {
 		return raiseExpectedObject(opts, elem)
 	}
 
+	v = attachValue(v, context{parent: elem, field: n.name})
 	sub.c.fields.set(n.name, v)
-	v.SetContext(context{parent: elem, field: n.name})
 	return nil
 }
 
@@ -274,9 +274,21 @@ func (i idxField) SetValue(opts *options, elem value, v value) Error {
 		return raiseIndexOutOfBounds(opts, elem, i.i)
 	}
 
+	v = attachValue(v, context{parent: elem, field: i.String()})
 	sub.c.fields.setAt(i.i, elem, v)
-	v.SetContext(context{parent: elem, field: i.String()})
 	return nil
+}
+
+// attachValue prepares v for being stored at ctx. A sub-configuration that is
+// already part of another configuration (or stored elsewhere in the same one)
+// can not have two parents: it is copied, so that the path and parent of the
+// original and of the new setting both describe where they really are.
+func attachValue(v value, ctx context) value {
+	if sub, ok := v.(cfgSub); ok && !sub.c.ctx.empty() {
+		return sub.cpy(ctx)
+	}
+	v.SetContext(ctx)
+	return v
 }
 
 func (p cfgPath) Remove(cfg *Config, opt *options) (bool, error) {
